@@ -162,7 +162,7 @@ func c15RunClean(c *Case) (string, []Fail) {
 		out, got, panicked := c15CleanOne(s)
 		outs = append(outs, out)
 		if panicked {
-			add("c15:clean-panic", fmt.Sprintf("util.CleanUTF8(%q) panics", s))
+			add("c15:clean-panic", fmt.Sprintf("util.CleanUTF8(%+q) panics", s))
 			continue
 		}
 		if want := refCleanUTF8(s); string(got) != string(want) {
@@ -174,7 +174,7 @@ func c15RunClean(c *Case) (string, []Fail) {
 			} else if !utf8.Valid(got[len(got)-len(refTailOf(got)):]) {
 				what = "leaves a broken sequence after the last ASCII byte"
 			}
-			add("c15:clean-utf8", fmt.Sprintf("util.CleanUTF8(%q) = %q %s; nothing up to the last ASCII byte may change and after it exactly the well-formed sequences stay: %q",
+			add("c15:clean-utf8", fmt.Sprintf("util.CleanUTF8(%+q) = %+q %s; nothing up to the last ASCII byte may change and after it exactly the well-formed sequences stay: %+q",
 				s, got, what, want))
 		}
 	}
